@@ -94,6 +94,7 @@ theorem wstep_base_cases (cfg : Cfg) (ws : WState) (st : Step) :
   | ioData sid c => left; simp [wstep, recvStepOf]
   | ioDeliver => left; simp [wstep, recvStepOf]
   | ioClose sid => left; simp [wstep, recvStepOf]
+  | ioCloseCb sid => left; simp [wstep, recvStepOf]
   | setMode sid m => left; simp [wstep, recvStepOf]
   | flushStep sid => left; simp [wstep, recvStepOf]
   | fence n => left; simp [wstep, recvStepOf]
@@ -110,6 +111,7 @@ theorem wstep_core (cfg : Cfg) (ws : WState) (st : WStep) :
     · rw [h]; exact ⟨rfl, coreEvs_map_base _⟩
     · rw [h]; exact ⟨afterSub_core _ _ _ _, by rw [coreEvs_append, coreEvs_map_base, coreEvs_afterSub, List.append_nil]⟩
   | cancel sid => exact ⟨rfl, rfl⟩
+  | reset sid => exact ⟨rfl, rfl⟩
   | wCall sid len =>
     simp only [wstep, coreSteps, run_nil]
     cases hw : ws.w sid with
@@ -159,5 +161,104 @@ theorem wrun_core (cfg : Cfg) : ∀ (wsteps : List WStep) (ws : WState),
       rw [disciplined_append]
       refine ⟨okW_disciplined hd.1, ?_⟩
       rw [← h1]; exact i3 hd.2
+
+/-! ## W4: the composed stream the callers see -/
+
+theorem userBytes_append (sid : Nat) (h : Bool) (a b : List WEv) : userBytes sid h (a ++ b) = userBytes sid h a ++ userBytes sid h b := by
+  induction a with
+  | nil => rfl
+  | cons e r ih =>
+    cases e with
+    | base e =>
+      cases e with
+      | recvRet j q => cases q <;> simp [userBytes, ih]
+      | cbData j d => simp [userBytes, ih]
+      | modeRet j o => simp [userBytes, ih]
+      | closeCb j => simp [userBytes, ih]
+    | wrapRet j q => cases q <;> simp [userBytes, ih]
+
+/-- with nothing hidden the application sees exactly the core events' bytes -/
+theorem userBytes_map_base (sid : Nat) (l : List Ev) : userBytes sid false (l.map WEv.base) = evBytes sid l := by
+  induction l with
+  | nil => rfl
+  | cons e r ih =>
+    cases e with
+    | recvRet j q => cases q <;> simp [userBytes, evBytes, ih]
+    | cbData j d => simp [userBytes, evBytes, ih]
+    | modeRet j o => simp [userBytes, evBytes, ih]
+    | closeCb j => simp [userBytes, evBytes, ih]
+
+/-- a sub-call section: the hidden `recvRet` and the wrapper's `wrapRet` carry the same bytes -/
+theorem userBytes_sub (sid sid' : Nat) (ws : WState) (c : WCall) (X : Option RecvRes) :
+    userBytes sid true ((evRecv sid' X).map WEv.base ++ (afterSub ws sid' c X).2) = evBytes sid (evRecv sid' X) := by
+  cases X with
+  | none => simp [evRecv, afterSub, userBytes, evBytes]
+  | some r => cases r <;> simp [evRecv, afterSub, userBytes, evBytes]
+
+/-- one wrapper step hands the application exactly the bytes its core events carry (ANY state, ANY step: a sub-call's `ok bytes` is
+returned by the wrapper in the same step, whatever the token says; nothing else of a sub-call is visible) -/
+theorem wstep_user (cfg : Cfg) (ws : WState) (st : WStep) (sid : Nat) :
+    userBytes sid (subActive ws st) (wstep cfg ws st).2 = evBytes sid (coreEvs (wstep cfg ws st).2) := by
+  cases st with
+  | base st =>
+    cases st with
+    | recvEnter j len =>
+      cases hw : ws.w j with
+      | none => simp [wstep, recvStepOf, hw, subActive, userBytes_map_base, coreEvs_map_base]
+      | some c =>
+        by_cases ha : c.phase = .entering
+        · simp only [wstep, recvStepOf, hw, ha, subActive, step, beq_self_eq_true, if_true]
+          generalize (recvEnterS ws.core.shuttingDown (ws.core.sess j) len).2 = X
+          cases X with
+          | none => simp [evRecv, recvOf, afterSub, userBytes, evBytes, coreEvs]
+          | some r => cases r <;> simp [evRecv, recvOf, afterSub, userBytes, evBytes, coreEvs]
+        · have hb : (c.phase == WPhase.entering) = false := by simp [ha]
+          simp [wstep, recvStepOf, hw, ha, hb, subActive, userBytes_map_base, coreEvs_map_base]
+    | recvWake j t =>
+      cases hw : ws.w j with
+      | none => simp [wstep, recvStepOf, hw, subActive, userBytes_map_base, coreEvs_map_base]
+      | some c =>
+        by_cases ha : c.phase = .inCall
+        · simp only [wstep, recvStepOf, hw, ha, subActive, step, beq_self_eq_true, if_true]
+          generalize (recvWakeS ws.core.shuttingDown (ws.core.sess j) t).2 = X
+          cases X with
+          | none => simp [evRecv, recvOf, afterSub, userBytes, evBytes, coreEvs]
+          | some r => cases r <;> simp [evRecv, recvOf, afterSub, userBytes, evBytes, coreEvs]
+        · have hb : (c.phase == WPhase.inCall) = false := by simp [ha]
+          simp [wstep, recvStepOf, hw, ha, hb, subActive, userBytes_map_base, coreEvs_map_base]
+    | ioData j c => simp [wstep, recvStepOf, subActive, userBytes_map_base, coreEvs_map_base]
+    | ioDeliver => simp [wstep, recvStepOf, subActive, userBytes_map_base, coreEvs_map_base]
+    | ioClose j => simp [wstep, recvStepOf, subActive, userBytes_map_base, coreEvs_map_base]
+    | ioCloseCb j => simp [wstep, recvStepOf, subActive, userBytes_map_base, coreEvs_map_base]
+    | setMode j m => simp [wstep, recvStepOf, subActive, userBytes_map_base, coreEvs_map_base]
+    | flushStep j => simp [wstep, recvStepOf, subActive, userBytes_map_base, coreEvs_map_base]
+    | fence n => simp [wstep, recvStepOf, subActive, userBytes_map_base, coreEvs_map_base]
+  | cancel j => simp [wstep, subActive, userBytes, coreEvs, evBytes]
+  | reset j => simp [wstep, subActive, userBytes, coreEvs, evBytes]
+  | wCall j len =>
+    simp only [wstep, subActive]
+    cases hw : ws.w j with
+    | some c => simp [userBytes, coreEvs, evBytes]
+    | none => cases ht : ws.tok j <;> simp [userBytes, coreEvs, evBytes]
+  | wLoop j e =>
+    simp only [wstep, subActive]
+    cases hw : ws.w j with
+    | none => simp [userBytes, coreEvs, evBytes]
+    | some c =>
+      simp only []
+      (repeat' split) <;> simp [userBytes, coreEvs, evBytes]
+
+/-- over a whole wrapper execution — any number of `receiveSyncCancellable` calls, plain receives, cancels and token resets in between —
+the application is handed exactly the bytes of the core events, in order -/
+theorem wrunUser_eq (cfg : Cfg) (sid : Nat) : ∀ (wsteps : List WStep) (ws : WState),
+    wrunUser sid cfg ws wsteps = evBytes sid (coreEvs (wrun cfg ws wsteps).2) := by
+  intro wsteps
+  induction wsteps with
+  | nil => intro ws; simp [wrunUser, wrun_nil, coreEvs, evBytes]
+  | cons st rest ih =>
+    intro ws
+    rw [wrun_cons, coreEvs_append, evBytes_append]
+    simp only [wrunUser]
+    rw [wstep_user, ih]
 
 end Iora.SyncRecv
